@@ -104,9 +104,26 @@ Theorem C10_cache_cleanup : forall fs tmp target chunks k extra,
 Proof. exact cache_cleanup. Qed.
 Print Assumptions C10_cache_cleanup.
 
+(* Known finding C10 tag 1 (unchanged code): Job.sync(..., doc_sync=DocSync.COPY) copies the destination job document
+   as an ordinary file (shutil.copy) and the roll-back after a raising doc_sync restores it with shutil.copy2: both
+   are the model's in-place protocol, for which the direct_write refutations above apply ... *)
+Theorem C10_inplace_is_direct : forall c, k_fault c = None -> inplace_site (k_site c) = true ->
+  model_prog c = direct_write 0 (k_chunks c).
+Proof. exact inplace_is_direct. Qed.
+Print Assumptions C10_inplace_is_direct.
+
+(* ... witness in observational form: a case of that kind on which model and observation agree, the oracle is false,
+   the classifier says 1, and the model's crash states contain an empty and a torn document *)
+Theorem C10_sync_copy_refuted :
+  mismatch_C10 case_sync_copy = false /\ holds_C10 case_sync_copy = false /\ classify_C10 case_sync_copy = 1%N /\
+  existsb (fun x => outcome_eqb (fst x) OEmpty) (model_crash case_sync_copy) = true /\
+  existsb (fun x => outcome_eqb (fst x) OTorn) (model_crash case_sync_copy) = true.
+Proof. exact sync_copy_refuted_w. Qed.
+Print Assumptions C10_sync_copy_refuted.
+
 (* licence for the correspondence step: when the implementation's observations of a signac write agree with the
-   model's, the oracle holds on them (precondition: names in the abstract pre-state are distinct, the new content
-   differs from the old one) *)
+   model's, the oracle holds on them (precondition [pre_C10]: not one of the two in-place sites of known finding 1, the new
+   content differs from the old one, abstract contents short enough for the model reader) *)
 Theorem C10_model_holds : forall c,
   pre_C10 c = true -> mismatch_C10 c = false -> holds_C10 c = true.
 Proof. exact model_holds_C10. Qed.
